@@ -49,7 +49,8 @@ def replay(pid, harness, failed, tier, spec):
     # 1. concrete values
     r = kani_run.run_one(harness, 0, int(os.environ.get("VERIF_PLAYBACK_TIMEOUT", "2400")), 14000000,
                          extra_args=spec.get("extra_args"), features=spec.get("features"), playback=True,
-                         module=spec.get("module"), submod=spec.get("submod", "verif"))
+                         module=spec.get("module"), submod=spec.get("submod", "verif"),
+                         cbmc_extra=["--property", failed[0]["check"]])
     text = open(r["log"], errors="replace").read()
     raw = extract_playback_bytes(text, [f["description"] for f in failed])
     if not raw:
@@ -57,7 +58,14 @@ def replay(pid, harness, failed, tier, spec):
         return {"status": "not_reproduced", "path": path, "role": None, "detail": "Kani produced no concrete playback values"}
     script = {"property": pid, "harness": harness, "raw": raw, "assertions": [f["description"] for f in failed]}
     json.dump(script, open(path, "w"), indent=1)
-    # 2. native run
+    with open(path + ".txt", "w") as f:
+        f.write("harness=%s\nraw=%s\n" % (harness, ",".join(str(b) for b in raw)))
+    # 2. native run (regenerate the replay crate's view of /repo first)
+    import gen
+    gen.generate(os.path.join(VERIF, "replay"))
+    if not os.path.exists(os.path.join(VERIF, "replay", "Cargo.lock")):
+        import shutil
+        shutil.copy("/repo/Cargo.lock", os.path.join(VERIF, "replay", "Cargo.lock"))
     env = dict(os.environ)
     env["CARGO_NET_OFFLINE"] = "true"
     env["VERIF_REPLAY"] = path
